@@ -772,18 +772,18 @@ def run(ctx, only=None):
         for L in range(1, Lhist + 1):
             for chunk in split(op_sequences(menu, 4), 1 if L < 3 else (4 if L == 3 else 16)):
                 shards.append((L, chunk))
-        if not quick:
-            for seq in itertools.permutations(["basis_nonpin", "p2w", "strict"]):
-                shards.append((6, [list(seq) + ["inverse"]]))
+        # length 6 is the first with permutations that have no pin word (56 of 720)
+        orders = list(itertools.permutations(["basis_nonpin", "p2w", "strict"]))
+        for seq in (orders[:1] if quick else orders):
+            shards.append((6, [list(seq) + ["inverse"]]))
         # big shards first
         shards.sort(key=lambda s: -(8 ** s[0]) * len(s[1]))
         ctx.pmap(shard_tables, shards)
         ctx.bounds["tables"] = {"full_check_lengths": "0..%d (three fixed orders)" % Ltab,
                                 "histories": "every sequence of 1..4 operations over %s, lengths 1..%d, "
                                              "caches cleared before each" % (menu, Lhist),
-                                "non_pin_lookup": None if quick else
-                                "length 6: all orders of (lookup of a permutation without pin words, "
-                                "p2w, strict)"}
+                                "non_pin_lookup": "length 6: lookup of a permutation without pin "
+                                "words, then p2w, strict, inverse" + ("" if quick else " (all 6 orders)")}
         ctx.section("tables", evaluations=ctx.evals - e0)
 
     if want("translate"):
